@@ -1,4 +1,4 @@
-SPECIFICATION MCSpec
+SPECIFICATION GSpec
 CONSTANTS
   Client = {"c1", "c2"}
   Eth <- E2
@@ -13,14 +13,20 @@ CONSTANTS
   MaxFee = 1
   MintAmts = {1, 3}
   PctMilli = 700
-  MaxBurnNonce = 3
-  Staked = {"a1", "a2", "a3"}
+  MaxBurnNonce = 9
+  Staked = {"a1", "a2"}
   Nonces = {0, 1, 2}
-  SigSeqs <- Seqs4
+  SigSeqs <- NoSeqs
   BurnVals <- NoVals
   Acceptance = "written"
-  CountsUnverified = FALSE
-  RewardNeedsStake = FALSE
-VIEW StateView
-PROPERTIES P_C18_MintQuorum P_C18_ExactThreshold P_C18_NonceOnce P_C18_MintAmounts P_C19_BurnExact
+  CountsUnverified = TRUE
+  RewardNeedsStake = TRUE
+  GenModes <- Both
+  GenLen = 3
+  SweepN = 4
+  GBurns <- OneBurn
+  GMints <- HistMints
+  GAuthOps <- A3Ops
+VIEW GView
+INVARIANT GPrint
 CHECK_DEADLOCK FALSE
